@@ -571,6 +571,7 @@ KERNEL_GROUPS = {
         ('cds_seq.py', 'CdsSeq.cds_prefix_length', 'k_cds_prefix_length', 'cds'),
         ('cds_seq.py', 'CdsSeq.cds_suffix_length', 'k_cds_suffix_length', 'cds'),
         ('cds_seq.py', 'CdsSeq.get_inner_cds_range', 'k_cds_inner_range', 'cds'),
+        ('cds_seq.py', 'CdsSeq.ext_start', 'k_cds_ext_start', 'cds'),
     ],
     # MAVE-HGVS strings: every function of mave_hgvs.py (f-strings, optional strings, the VariantType / MAVEPrefix enums of enums.py)
     'KernelsMave': [
@@ -719,6 +720,9 @@ KERNEL_IMPORTS = {'KernelsTargeton': ' Model.Targeton', 'KernelsMave': ' Model.S
                   'KernelsNames': ' Model.Seq Model.Vcf Model.Mave Model.PyStr', 'KernelsLift': ' Model.Seq Model.Vcf Model.Gpo Model.PyLoop',
                   'KernelsGpo': ' Model.Seq Model.Vcf Model.Gpo Model.PyStr Model.PyLoop', 'KernelsExons': ' Model.PyLoop', 'KernelsCounts': ' Model.Unique Model.PyLoop',
                   'KernelsMetaRow': ' Model.Seq Model.Vcf Model.Mave Model.Gpo Model.ToCsv', 'KernelsDnaStr': ' Model.Seq Model.Vcf Model.Mave Model.PyStr Model.PyLoop'}
+
+
+KERNEL_IMPORTS['KernelsAnnot'] = ' Model.PyLoop'
 
 
 def _kernel_extractor(name):
